@@ -25,7 +25,7 @@ use rustc_hir::def_id::{DefId, LOCAL_CRATE};
 use rustc_middle::mir::interpret::{AllocId, Allocation, GlobalAlloc, Scalar};
 use rustc_middle::mir::*;
 use rustc_middle::ty::print::{with_no_trimmed_paths, with_no_visible_paths};
-use rustc_middle::ty::{self, GenericArgsRef, Ty, TyCtxt, TypingEnv};
+use rustc_middle::ty::{self, GenericArgsRef, Ty, TyCtxt, TypeVisitableExt, TypingEnv};
 use rustc_span::Span;
 use std::fmt::Write as _;
 
@@ -111,6 +111,7 @@ struct Cx<'a, 'tcx> {
     body: &'a Body<'tcx>,
     def_id: DefId,
     tenv: TypingEnv<'tcx>,
+    with_promoted: bool,
 }
 
 impl<'a, 'tcx> Cx<'a, 'tcx> {
@@ -240,6 +241,9 @@ impl<'a, 'tcx> Cx<'a, 'tcx> {
                 }
             }
             if !done {
+                if let Some(v) = self.eval_const(c) {
+                    items.push(("val", v));
+                }
                 items.push(("s", q(&with_no_trimmed_paths!(format!("{:?}", c.const_)))));
                 // unevaluated constants: record the item they name
                 if let Const::Unevaluated(u, _) = c.const_ {
@@ -251,6 +255,23 @@ impl<'a, 'tcx> Cx<'a, 'tcx> {
             }
         }
         obj(&items)
+    }
+
+    /// Evaluate a non-scalar constant operand (promoted, associated const, &-to-const)
+    /// and decode it by type. Generic-dependent constants yield None.
+    fn eval_const(&self, c: &ConstOperand<'tcx>) -> Option<String> {
+        let tcx = self.tcx;
+        let ty = c.const_.ty();
+        if ty.has_non_region_param() {
+            return None;
+        }
+        if let Const::Unevaluated(u, _) = c.const_ {
+            if u.args.has_non_region_param() {
+                return None;
+            }
+        }
+        let cv = c.const_.eval(tcx, self.tenv, c.span).ok()?;
+        decode_value(tcx, self.tenv, cv, ty)
     }
 
     fn operand(&self, o: &Operand<'tcx>) -> String {
@@ -539,6 +560,28 @@ impl<'a, 'tcx> Cx<'a, 'tcx> {
             ]));
         }
         items.push(("blocks", list(blocks)));
+        if self.with_promoted {
+            let proms = tcx.promoted_mir(did);
+            let mut ps = vec![];
+            for pb in proms.iter() {
+                let pcx = Cx { tcx, body: pb, def_id: did, tenv: self.tenv, with_promoted: false };
+                let mut pblocks = vec![];
+                for (_bb, data) in pb.basic_blocks.iter_enumerated() {
+                    let stmts = list(data.statements.iter().filter_map(|s| pcx.statement(s)));
+                    let term = pcx.terminator(data.terminator());
+                    pblocks.push(obj(&[
+                        ("cleanup", data.is_cleanup.to_string()),
+                        ("stmts", stmts),
+                        ("term", term),
+                    ]));
+                }
+                ps.push(obj(&[
+                    ("locals", list(pb.local_decls.iter().map(|d| q(&ty_str(d.ty))))),
+                    ("blocks", list(pblocks)),
+                ]));
+            }
+            items.push(("promoted", list(ps)));
+        }
         obj(&items)
     }
 }
@@ -653,6 +696,39 @@ fn decode<'tcx>(
     }
 }
 
+fn decode_value<'tcx>(
+    tcx: TyCtxt<'tcx>,
+    tenv: TypingEnv<'tcx>,
+    cv: ConstValue,
+    ty: Ty<'tcx>,
+) -> Option<String> {
+    Some(match cv {
+        ConstValue::Scalar(Scalar::Int(si)) => {
+            let size = si.size().bytes() as usize;
+            let bits = si.to_bits_unchecked();
+            let bytes: Vec<u8> = (0..size).map(|i| (bits >> (8 * i)) as u8).collect();
+            decode(tcx, tenv, &bytes, 0, ty, 0)
+        }
+        ConstValue::Scalar(Scalar::Ptr(ptr, _)) => {
+            // &T to a constant allocation: decode the pointee
+            let ty::Ref(_, inner, _) = ty.kind() else { return None };
+            let (prov, off) = ptr.prov_and_relative_offset();
+            let GlobalAlloc::Memory(a) = tcx.global_alloc(prov.alloc_id()) else { return None };
+            let a = a.inner();
+            let bytes = a.inspect_with_uninit_and_ptr_outside_interpreter(0..a.len());
+            obj(&[("ref", decode(tcx, tenv, bytes, off.bytes() as usize, *inner, 0))])
+        }
+        ConstValue::ZeroSized => "null".into(),
+        ConstValue::Slice { .. } => q("<slice>"),
+        ConstValue::Indirect { alloc_id, offset } => {
+            let GlobalAlloc::Memory(a) = tcx.global_alloc(alloc_id) else { return None };
+            let a = a.inner();
+            let bytes = a.inspect_with_uninit_and_ptr_outside_interpreter(0..a.len());
+            decode(tcx, tenv, bytes, offset.bytes() as usize, ty, 0)
+        }
+    })
+}
+
 fn dump_const<'tcx>(tcx: TyCtxt<'tcx>, did: DefId) -> Option<String> {
     if tcx.generics_of(did).requires_monomorphization(tcx) {
         return None;
@@ -713,7 +789,7 @@ impl rustc_driver::Callbacks for Cb {
                 continue;
             }
             let body = tcx.optimized_mir(did);
-            let cx = Cx { tcx, body, def_id: did, tenv: TypingEnv::post_analysis(tcx, did) };
+            let cx = Cx { tcx, body, def_id: did, tenv: TypingEnv::post_analysis(tcx, did), with_promoted: true };
             let mut p = path_of(tcx, did);
             let n = seen.entry(p.clone()).or_insert(0);
             *n += 1;
